@@ -116,7 +116,7 @@ def op_misc(p):
         opts += [(3, st.tuples(st.just("wild"), st.sampled_from(["ret", "rec", "g10", "g11", "g10s", "g11s"]),
                                st.sampled_from([1, 2, 4, 8, 20])))]
     if p["g92e"]:
-        opts.append((1, st.tuples(st.just("sete"), st.sampled_from([0.0, 0.0, 1.27, 2.54, 10.16]))))
+        opts.append((1, st.tuples(st.just("sete"), st.sampled_from([0.0, 0.0, 1.27, 2.54, 10.16, 9245.6, 21590.0]))))     # (long prints: metres of filament)
     if p["inch"]:
         opts.append((1, st.just(("units",))))
     if p["rel"]:
@@ -199,7 +199,7 @@ def op_visit(p):
                      st.sampled_from([None, None, 0.4, 1.0, 5.0]),
                      st.sampled_from([0, 0, 2]),
                      st.lists(one_op(p, True), max_size=5),
-                     st.sampled_from(["out", "out", "out", "grid", "disable", "stay"]))
+                     st.sampled_from(["out", "out", "out", "grid", "disable", "stay", "back"]))
 
 
 def ops(p):
@@ -222,6 +222,10 @@ def config(draw, p):
         cfg["enter"] = draw(st.lists(st.sampled_from(SCRIPT_POOL), min_size=1, max_size=2))
     if p["scripts"] and draw(st.integers(0, 2)) == 0:
         cfg["exit"] = draw(st.lists(st.sampled_from(SCRIPT_POOL), min_size=1, max_size=2))
+    if p.get("park") and draw(st.integers(0, 3)) == 0:
+        # an enter script that parks the nozzle at the home corner while the region is skipped (absolute mm files only matter
+        # to where it parks; the exit must bring the tool to the file's position wherever it was parked)
+        cfg["enter"] = (cfg.get("enter") or []) + ["G0 X0 Y0"]
     if p["ext"] and draw(st.integers(0, 3)) == 0:
         codes = draw(st.lists(st.sampled_from(["G4", "M204", "M205", "M117", "M73", "M106", "M900", "M104"]),
                               unique=True, max_size=5))
@@ -463,6 +467,7 @@ class Renderer(object):  # pylint: disable=too-many-instance-attributes
             self.stress(o)
         elif k == "visit":
             _, rsel, i, j, z, ext, inner, leave = o
+            back = (pr.x, pr.y)
             self.op(("mv", "in", rsel, i, j, 3, z, ext, None, "G1"))
             for sub in inner:
                 self.op(sub)
@@ -470,6 +475,9 @@ class Renderer(object):  # pylint: disable=too-many-instance-attributes
                 self.op(("mv", "edge_out", rsel, i, j, 3, None, ext, None, "G1"))
             elif leave == "grid":
                 self.op(("mv", "grid", rsel, (i * 7) % 121, (j * 5) % 121, 3, None, 0, None, "G0"))
+            elif leave == "back" and back[0] is not None:
+                # straight back to the very point the tool was at before the visit
+                self.g("G1 X%s Y%s" % (fmt(self.lx("x", back[0]), 6), fmt(self.lx("y", back[1]), 6)), precheck=True)
             elif leave == "disable" and self.p["at"]:
                 self.op(("at", "off", "ExcludeRegion", False))
                 self.op(("mv", "grid", rsel, i, j, 3, None, 0, None, "G0"))
